@@ -989,6 +989,17 @@ func TestC08(t *testing.T) {
 			}
 			return
 		}
+		if rf.Kind == "repeat" {
+			var c repeatCase
+			if err := json.Unmarshal(rf.Case, &c); err != nil {
+				t.Fatal(err)
+			}
+			rec.Eval()
+			if msg := ck.checkRepeat(c); msg != "" {
+				rec.Violation("repeat", c, msg)
+			}
+			return
+		}
 		var c c08Case
 		if err := json.Unmarshal(rf.Case, &c); err != nil {
 			t.Fatal(err)
@@ -1240,6 +1251,26 @@ func TestC08(t *testing.T) {
 	for _, f := range ioFns {
 		if !isKiller(f.Name) {
 			seqIO = append(seqIO, f)
+		}
+	}
+	// repeated refusals in one thread of one runtime
+	{
+		ridx := 0
+		for _, rc := range repeatCases {
+			for _, inCo := range []bool{false, true} {
+				ridx++
+				if !rec.Mine(ridx) {
+					continue
+				}
+				c := repeatCase{Flags: rc.flags, Call: rc.call, Probe: rc.probe, N: rec.Pick(1500, 6000), InCo: inCo}
+				rec.Eval()
+				rec.Class("repeated-refusals")
+				rec.NonTrivial(fmt.Sprint("repeat|", c))
+				if msg := ck.checkRepeat(c); msg != "" {
+					rec.Violation("repeat", c, msg)
+					return
+				}
+			}
 		}
 	}
 	RunRapid(rec, "C08/random-single", rec.Pick(800, 5000), 0, func(t *rapid.T) {
